@@ -26,6 +26,8 @@
   exact domain of float64 and re-checks that with big.Rat).  `sqrt` is exact on perfect squares only.
   Go map iteration order (groups) is not observable: results are compared sorted by tag set.
 
+  `aggregateRepoAlias`: the pinned tree's engine-side grouping for labels given by the legacy alias key<i> alone
+  (fixes/C27-group-alias.diff); the model's labels are resolved tag indices, i.e. the fixed behaviour.
   `Cfg`: `.repo` is the pinned tree, `.fixed` the tree after fixes/C27-*.diff:
     whatFix   the `what` chosen by a reduction rule reaches the storage query (the pinned tree stores it in
               VectorSelector.What, which nothing reads; the query is built from VectorSelector.Whats)
@@ -148,6 +150,18 @@ def columns (n : Nat) (ss : List Series) : List (List Val) :=
 def aggregate (n : Nat) (f : List Val → Val) (without : Bool) (labels : List Nat) (ss : List Series) : List Series :=
   (dedupKeys (ss.map (fun s => keyOf without labels s.tags))).map (fun k =>
     { tags := k, vals := (columns n (ss.filter (fun s => keyOf without labels s.tags = k))).map f })
+
+/-- aggregateAt0 on the PINNED tree (before fixes/C27-group-alias.diff) when some labels are given only by the legacy alias
+    key<i> (`aliasOnly`, resolved tag indices) and the others by id or custom name (`named`): SeriesTags.Get resolves the
+    alias, so `by` hashes the tag, but the used/unused test of SeriesTags.hash does not know the alias: `by` then removes
+    the tag from the result as unused, `without` does not exclude it.  After the fix the labels are simply
+    `named ++ aliasOnly` for `aggregate` (the model's labels are resolved tag indices). -/
+def aggregateRepoAlias (n : Nat) (f : List Val → Val) (without : Bool) (named aliasOnly : List Nat) (ss : List Series) : List Series :=
+  if without then aggregate n f true named ss
+  else
+    (dedupKeys (ss.map (fun s => keyOf false (named ++ aliasOnly) s.tags))).map (fun k =>
+      { tags := keyOf false named k,
+        vals := (columns n (ss.filter (fun s => keyOf false (named ++ aliasOnly) s.tags = k))).map f })
 
 /-! ## the time scale and the window cursor -/
 
